@@ -3,6 +3,7 @@
 // x the 13 exact-solver booleans (deviation-bounded; thorough: the complete 2^13 product on a curated set) x simplifier x scaler
 // x sync mode.  Everything returned is checked with ZERO tolerance in mpq arithmetic against the LP as entered.
 #include "vx_spx.hpp"
+#include "vx_planted.hpp"
 using namespace vx;
 
 static Rational to_spx(const Q& q) { return Rational(q.get_mpq_t()); }
@@ -329,12 +330,42 @@ static Cfg3 minimise(const XLP& x, const Classification& cl, Cfg3 cf, const std:
    return cf;
 }
 
+static uint64_t run_core(const XLP& x, const Classification& cl, const std::string& caseName, const std::string& sigTag, const std::vector<Cfg3>& cfgs, Ctx& c);
+
 static uint64_t run_lp(const XLP& x, const std::vector<Cfg3>& cfgs, Ctx& c, bool countNT)
 {
    Classification cl = classify(x);
    c.count("lps");
    c.count(std::string("class.") + cl.name());
    if(countNT) c.count("nontrivial");
+   return run_core(x, cl, xlp_str(x), "", cfgs, c);
+}
+
+// planted LP up to 30x30 (vx_planted.hpp): classification and optimum known by construction; the rows are multiplied by positive non-dyadic
+// rationals (1, 1/3, 5/7 - sides included), which changes neither the feasible set nor the optimum but leaves no row representable in double
+static uint64_t run_planted3(const PlantedSpec& sp, const std::vector<Cfg3>& cfgs, Ctx& c, bool countNT)
+{
+   PlantedLP P = planted(sp);
+   XLP x = P.lp.exact();
+   static const Q RSC[3] = {Q(1), qq(1, 3), qq(5, 7)};
+   for(int i = 0; i < x.m; ++i)
+   {
+      const Q& r = RSC[i % 3];
+      for(int j = 0; j < x.n; ++j) x.A[i][j] *= r;
+      if(x.lhs[i].fin()) x.lhs[i].v *= r;
+      if(x.rhs[i].fin()) x.rhs[i].v *= r;
+   }
+   Classification cl = P.cl;
+   x.offset = qq(7, 3);
+   if(sp.kind == 0) cl.opt = P.cl.opt - Q(3) + qq(7, 3);
+   c.count("planted_lps");
+   c.count(std::string("planted_class.") + sp.kindName());
+   if(countNT) c.count("nontrivial");
+   return run_core(x, cl, sp.str(), "+planted", cfgs, c);
+}
+
+static uint64_t run_core(const XLP& x, const Classification& cl, const std::string& caseName, const std::string& sigTag, const std::vector<Cfg3>& cfgs, Ctx& c)
+{
    uint64_t h = 5;
    for(size_t k = 0; k < cfgs.size(); ++k)
    {
@@ -346,9 +377,9 @@ static uint64_t run_lp(const XLP& x, const std::vector<Cfg3>& cfgs, Ctx& c, bool
       if(!rule.empty())
       {
          Cfg3 mc = rule == "exception" ? cfgs[k] : minimise(x, cl, cfgs[k], rule);
-         c.violation(rule + "@" + cfg_str(mc), xlp_str(x) + "#" + cfg_code(cfgs[k]), why + " | class=" + cl.name() + " | cfg " + cfg_str(cfgs[k]));
+         c.violation(rule + "@" + cfg_str(mc) + sigTag, caseName + "#" + cfg_code(cfgs[k]), why.substr(0, 600) + " | class=" + cl.name() + " | cfg " + cfg_str(cfgs[k]));
       }
-      else if(c.wantSample() && k == 3) c.sample("{\"lp\":" + jstr(xlp_str(x)) + ",\"config\":" + jstr(cfg_str(cfgs[k])) + ",\"status\":" + std::to_string(st) + ",\"class\":" + jstr(cl.name()) + "}");
+      else if(c.wantSample() && k == 3) c.sample("{\"lp\":" + jstr(caseName) + ",\"config\":" + jstr(cfg_str(cfgs[k])) + ",\"status\":" + std::to_string(st) + ",\"class\":" + jstr(cl.name()) + "}");
    }
    return h;
 }
@@ -367,10 +398,13 @@ int main(int argc, char** argv)
       p += 9;
       std::string cs = doc.substr(p, doc.find('"', p) - p);
       size_t h = cs.find('#');
-      XLP x = xlp_parse(cs.substr(0, h));
       Cfg3 cf{g_defaultMask, 1, 2, 1};
       sscanf(cs.c_str() + h + 1, "%u,%d,%d,%d,%d", &cf.mask, &cf.simplifier, &cf.scaler, &cf.syncmode, &cf.resolves);
       mallopt(M_PERTURB, 85);
+      PlantedSpec psp;
+      if(cs.compare(0, 2, "P:") == 0 && PlantedSpec::parse(cs.substr(0, h), psp))
+         return replay_case([&](Ctx & c) { run_planted3(psp, {cf}, c, false); });
+      XLP x = xlp_parse(cs.substr(0, h));
       return replay_case([&](Ctx & c) { run_lp(x, {cf}, c, false); });
    }
    bool thorough = args.tier == "thorough";
@@ -440,6 +474,27 @@ int main(int argc, char** argv)
       return run_lp(x, cfgsR, c, false);
    }, [&](uint64_t idx, uint64_t sub) { XLP x; lpAtR(idx, x); return xlp_str(x) + "#" + cfg_code(cfgsR[sub < cfgsR.size() ? sub : 0]); }, o,
    [&](uint64_t, uint64_t sub) { return "@" + cfg_str(cfgsR[sub < cfgsR.size() ? sub : 0]); });
+   {
+      // planted LPs up to 30x30 with non-dyadic rows x <= 1 deviation of the 13 booleans x simplifier: "always decides" and "never wrong" beyond the tiny families
+      static PlantedGrid pg;
+      pg.sizes = {{4, 3}, {5, 8}, {8, 5}, {10, 10}, {16, 12}, {12, 20}, {24, 24}, {30, 30}};
+      pg.densities = {15, 40, 100};
+      pg.seeds = thorough ? 12 : 2;
+      static std::vector<Cfg3> cfgsP;
+      cfgsP.clear();
+      for(int simp = 1; simp >= 0; --simp)
+      {
+         cfgsP.push_back({g_defaultMask, simp, 2, 1});
+         for(int a = 0; a < 13; ++a) cfgsP.push_back({g_defaultMask ^ (1u << a), simp, 2, 1});
+      }
+      cfgsP.push_back({g_defaultMask, 1, 2, 1, 1});     // optimize() twice on the same object
+      rep.phase("planted LPs up to 30x30 (non-dyadic rows) x <=1 deviation x simplifier", pg.size(), [&](uint64_t idx, int, Ctx & c) -> uint64_t
+      {
+         return run_planted3(pg.at(idx), cfgsP, c, true);
+      }, [&](uint64_t idx, uint64_t sub) { return pg.at(idx).str() + "#" + cfg_code(cfgsP[sub < cfgsP.size() ? sub : 0]); }, o,
+      [&](uint64_t, uint64_t sub) { return "@" + cfg_str(cfgsP[sub < cfgsP.size() ? sub : 0]); });
+      rep.extra["planted_grid"] = jstr("sizes (n x m) 4x3 5x8 8x5 10x10 16x12 12x20 24x24 30x30; densities 15/40/100 %; degenerate 0/1; min/max; kinds OPT/INF/UNB; seeds 0.." + std::to_string(pg.seeds - 1) + "; rows scaled by 1, 1/3, 5/7");
+   }
    if(thorough)
    {
       // the complete 2^13 product on a curated set (every 150th LP of the first family), simplifier on/off
